@@ -1,5 +1,8 @@
 import AfkakProofs.Consumer.Trace
 import AfkakProofs.Consumer.A_Gap6
+import AfkakProofs.Consumer.A5_Prompt8
+import AfkakProofs.Consumer.A5_Progress13
+import AfkakProofs.Consumer.A5_Decode3
 import AfkakProps.Open.C02
 /-!
 # C02 — the consumer delivers every message once, in offset order, never concurrently
@@ -99,6 +102,143 @@ example :
       (trace cfg [] evs).filterMap (fun | .ob (.proc blk) => some blk | _ => none) = [[⟨3, 1⟩, ⟨4, 2⟩], [⟨7, 3⟩]] := by
   refine ⟨A.faithfulB_sound _ _ _ _ (by decide +kernel), by decide +kernel⟩
 
+
+/-! ## The environment contract `FaithfulLog` is what the wire decoder delivers
+
+`C02_no_gap_no_dup` assumes `replyFaithful log off r` of the DECODED reply.  The two theorems below discharge that hypothesis
+for the broker answers the property speaks of ("compressed message sets, partial trailing messages"): the decoder model of
+the wire/crc packages (`decodeSet`, proved against the codec by C05/C12) applied to the grammar encoding of the log from the
+first entry at or after the requested offset, cut after ANY number of bytes, rendered as the consumer's `Reply` the way the
+client does (`D.replyOf`, a verbatim copy of `Afkak.C12.replyOf`: offsets kept, normal end / too-small condition / other error as `Tail`). -/
+
+open Afkak.WireCost Afkak.C12 Afkak.Monitor.C12 in
+/-- Plain message sets: partition log `wlog` with strictly ascending offsets (compaction gaps allowed), plain messages of
+    either format; fetch at `off ≥ 0`; answer = encoding of the log from the first entry at or after `off`, cut after any
+    number `c` of bytes (inside a message, beyond the end): the decoded reply is `replyFaithful` w.r.t. the log, and it ends
+    normally or - only when not a single message is complete - with the too-small condition. -/
+theorem C02_decoded_reply_faithful (gz : Gz) (depth : Nat) (pid : Int × Afkak.WireCost.Msg → Nat)
+    (other : Err → ErrKind × Nat) (wlog : List (Int × Afkak.WireCost.Msg)) (off : Int) (c : Nat)
+    (hasc : (wlog.map (·.1)).Pairwise (· < ·)) (hpl : ∀ om ∈ wlog, plainEntry om = true) (h0 : 0 ≤ off) :
+    Open.C02.replyFaithful (wlog.map (D.toMsg pid)) off
+        (D.replyOf pid other (decodeSet gz depth ((encodeSet (D.slice wlog off)).take c))) = true ∧
+      ((D.replyOf pid other (decodeSet gz depth ((encodeSet (D.slice wlog off)).take c))).tail = .done ∨
+       ((D.replyOf pid other (decodeSet gz depth ((encodeSet (D.slice wlog off)).take c))).tail = .small ∧
+        (D.replyOf pid other (decodeSet gz depth ((encodeSet (D.slice wlog off)).take c))).msgs = [])) :=
+  D.c02_decoded_reply_faithful gz depth pid other wlog off c hasc hpl h0
+
+open Afkak.WireCost Afkak.C12 Afkak.Monitor.C12 in
+/-- Sets with gzip wrappers of either message format (format 0: stored inner offsets; format 1: inner offsets re-based on
+    the wrapper's): stored entries `before ++ after`, those of the answer well formed for the decompressor; what the entries
+    yield has strictly ascending offsets; everything `before` yields is below `off ≥ 0`; answer = encoding of `after` - which
+    may begin, inside a wrapper, BELOW `off` - cut after any number `c` of bytes (also inside a wrapper: the whole wrapper
+    is dropped then). -/
+theorem C02_decoded_reply_faithful_wrapped (gz : Gz) (depth : Nat) (pid : Int × Afkak.WireCost.Msg → Nat)
+    (other : Err → ErrKind × Nat) (before after : List SetEntry) (off : Int) (c : Nat)
+    (hwf : ∀ e ∈ after, e.WellFormed gz)
+    (hasc : (((before ++ after).flatMap SetEntry.yields).map (·.1)).Pairwise (· < ·))
+    (hbelow : ∀ om ∈ before.flatMap SetEntry.yields, om.1 < off) (h0 : 0 ≤ off) :
+    Open.C02.replyFaithful (((before ++ after).flatMap SetEntry.yields).map (D.toMsg pid)) off
+        (D.replyOf pid other (decodeSet gz (depth + 1) ((encodeEntries after).take c))) = true ∧
+      ((D.replyOf pid other (decodeSet gz (depth + 1) ((encodeEntries after).take c))).tail = .done ∨
+       ((D.replyOf pid other (decodeSet gz (depth + 1) ((encodeEntries after).take c))).tail = .small ∧
+        (D.replyOf pid other (decodeSet gz (depth + 1) ((encodeEntries after).take c))).msgs = [])) :=
+  D.c02_decoded_reply_faithful_wrapped gz depth pid other before after off c hwf hasc hbelow h0
+
+/-! Non-vacuity (plain): log with a gap (offsets 3, 4, 7; formats 0 and 1; 27 + 36 + 27 bytes).  Fetch at 0 with 80 of the 90
+bytes: the third message is cut, two delivered, normal end; fetch at 4 with 20 bytes: nothing complete, `Tail.small`.  (Wrappers:
+the example at the end of `AfkakProofs/Consumer/A5_Decode3.lean`: a format-1 wrapper at 105 yielding 103, 105, fetched at 105.) -/
+open Afkak.WireCost Afkak.C12 Afkak.Monitor.C12 in
+example :
+    let wlog : List (Int × Afkak.WireCost.Msg) :=
+      [(3, ⟨0, 0, none, some [1], none⟩), (4, ⟨1, 0, some [9], some [2], some 5⟩), (7, ⟨0, 0, none, some [3], none⟩)]
+    let pid : Int × Afkak.WireCost.Msg → Nat := fun om => match om.2.value with | some (b :: _) => b.toNat | _ => 0
+    let gz : Gz := fun _ => .error ""
+    (wlog.map (·.1)).Pairwise (· < ·) ∧ (∀ om ∈ wlog, plainEntry om = true) ∧
+      D.replyOf pid (fun _ => (.other, 0)) (decodeSet gz 1 ((encodeSet (D.slice wlog 0)).take 80))
+        = { msgs := [⟨3, 1⟩, ⟨4, 2⟩], tail := .done } ∧
+      D.replyOf pid (fun _ => (.other, 0)) (decodeSet gz 1 ((encodeSet (D.slice wlog 4)).take 20))
+        = { msgs := [], tail := .small } := by
+  refine ⟨by decide, by decide +kernel, by decide +kernel, by decide +kernel⟩
+
+
+/-- Every fetched message is handed to the processor promptly: a reply that carries a message at or above the requested
+    offset, arriving while the consumer runs (not shutting down, not halted by a processor failure, no processor result
+    pending) makes the processor run in the same step; a reply that arrived while a result was pending is handled as soon
+    as that result arrives - on every trace (any configuration, script, events). -/
+theorem C02_prompt : Open.C02.C02_prompt := Afkak.Proofs.Consumer.P.c02_prompt
+
+/-! ## Liveness: a running consumer is never stuck (up to one defect), and the rest of the log is delivered within 4 events
+
+Vocabulary (`AfkakProofs/Consumer/A5_Progress1.lean`, `A5_ProgressZ.lean`, namespace `L`; all decidable): `L.Running s` = not
+crashed, start Deferred pending, not shutting down, not stopping; `L.Enabled s` = a fetch/offset request is outstanding, or a
+refetch timer is pending, or a processor result is pending (each enables an event: `L.enabled_fetch/offsets/offsetFetch/timer/proc`). -/
+
+open Afkak.Proofs.Consumer.L in
+/-- The full-strength statement `L.C02_never_stuck` (every reachable running state has an enabled event) is FALSE of the model,
+    and of the code (replayed; finding reported, not fixed): a fetch reply whose message iteration raises (ChecksumError …)
+    that arrived while the processor's result was pending is run as a callback of `_msg_block_d`; the exception never reaches
+    `_handle_fetch_error`: no retry, no request, the start Deferred never fires. -/
+theorem C02_never_stuck_counterexample : ¬ L.C02_never_stuck := L.C02_never_stuck_counterexample
+
+open Afkak.Proofs.Consumer.L in
+/-- … and that is the ONLY way to get stuck: for every configuration, processor script and event list in which no raising reply
+    is applied while a block of messages is in progress (`L.noRaiseParkedB`, decidable on the run), every reachable running
+    state has an enabled event … -/
+theorem C02_never_stuck_sharp (cfg : Cfg) (script : List PEntry) (evs : List Ev) (hn : noRaiseParkedB cfg script evs = true) :
+    Running (run cfg script evs) = true → Enabled (run cfg script evs) = true :=
+  L.C02_never_stuck_sharp cfg script evs hn
+
+open Afkak.Proofs.Consumer.L in
+/-- … in particular for event lists without any raising reply … -/
+theorem C02_never_stuck_partial (cfg : Cfg) (script : List PEntry) (evs : List Ev) (hn : evs.all noRaiseEv = true) :
+    Running (run cfg script evs) = true → Enabled (run cfg script evs) = true :=
+  L.C02_never_stuck_partial cfg script evs hn
+
+open Afkak.Proofs.Consumer.L in
+/-- … and the event the environment owes (`L.owedEv`: the reply to the outstanding request, else time passing up to the
+    refetch timer, else the processor's result) is accepted by `step`, not rejected. -/
+theorem C02_never_stuck_event (cfg : Cfg) (script : List PEntry) (evs : List Ev) (hn : noRaiseParkedB cfg script evs = true)
+    (hr : Running (run cfg script evs) = true) : Accepted cfg (run cfg script evs) (owedEv (run cfg script evs)) = true :=
+  L.C02_never_stuck_event cfg script evs hn hr
+
+/-! Non-vacuity: a raising reply while idle satisfies the sharp hypothesis (it is retried), the counterexample run violates it. -/
+open Afkak.Proofs.Consumer.L in
+example : noRaiseParkedB cexCfg [] [.start 0, .fetchOk 0 { msgs := [⟨0, 1⟩], tail := .raise .other 7 }] = true ∧
+    noRaiseParkedB cexCfg [{ acts := [], res := .defer }] cexEvs = false ∧
+    Running (run cexCfg [] [Ev.start 0, .fetchOk 0 { msgs := [⟨0, 1⟩], tail := .small }, .retryFire, .fetchErr 1 .kafka 3]) = true := by
+  decide +kernel
+
+open Afkak.Proofs.Consumer.L Open.C02 in
+/-- **Bounded continuation** ("every message is eventually received"): for every reachable state `s = run cfg script evs`
+    against a faithful, ascending log that is `L.Ready` (running; a fetch reply or the refetch timer pending; no block in
+    progress; the remaining processor script synchronous-ok; numeric fetch position; request ids fresh), the explicit
+    failure-free continuation `L.contOf log s` (the reply carrying the rest of the log, preceded by `advance`/`retryFire` when the
+    timer is pending: at most `L.bound s ≤ 3` events) keeps the environment contract, leaves the start Deferred pending, and
+    afterwards EVERY log message at or after the fetch position has been handed to the processor in a block observed after `s`. -/
+theorem C02_progress (log : List Msg) (cfg : Cfg) (script : List PEntry) (evs : List Ev)
+    (hf : FaithfulLog log cfg script evs) (hl : Ascending log) (hr : Ready (run cfg script evs) = true) :
+    FaithfulLog log cfg script (evs ++ contOf log (run cfg script evs)) ∧
+      (contOf log (run cfg script evs)).length ≤ bound (run cfg script evs) ∧ bound (run cfg script evs) ≤ 3 ∧
+      (run cfg script (evs ++ contOf log (run cfg script evs))).startD = .pending ∧
+      ∀ m ∈ log, (run cfg script evs).fetchOffset ≤ m.off →
+        ∃ blk, m ∈ blk ∧ Fresh (run cfg script evs) (run cfg script (evs ++ contOf log (run cfg script evs))) (.ob (.proc blk)) :=
+  L.C02_progress log cfg script evs hf hl hr
+
+open Afkak.Proofs.Consumer.L Open.C02 in
+/-- … and from a state with a processor result pending (`L.ProcAt`: no consumer group or no count-triggered commits, nothing
+    parked, not waited on by `shutdown()`): `procOk` first, at most 4 events.  (Non-vacuity examples by `decide +kernel` on a log
+    with a compaction gap, offsets 3, 4, 7, beside `L.c02_progress_idle`, `L.c02_progress_timer`, `L.C02_progress_proc` and at
+    the end of `A5_ProgressZ.lean`.)  Open: `L.C02_progress_full` - the same without the request-id freshness conjuncts of
+    `Ready` (needs the invariant "a request id is used once"); states with a parked reply are not covered. -/
+theorem C02_progress_proc (log : List Msg) (cfg : Cfg) (script : List PEntry) (evs : List Ev)
+    (hf : FaithfulLog log cfg script evs) (hl : Ascending log) (hi : ProcAt cfg (run cfg script evs) = true) :
+    FaithfulLog log cfg script (evs ++ contP log cfg (run cfg script evs)) ∧
+      (contP log cfg (run cfg script evs)).length ≤ 4 ∧
+      (run cfg script (evs ++ contP log cfg (run cfg script evs))).startD = .pending ∧
+      ∀ m ∈ log, (run cfg script evs).fetchOffset ≤ m.off →
+        ∃ blk, m ∈ blk ∧ Fresh (run cfg script evs) (run cfg script (evs ++ contP log cfg (run cfg script evs))) (.ob (.proc blk)) :=
+  L.C02_progress_proc log cfg script evs hf hl hi
+
 end Afkak.Props.C02
 
 /- OBLIGATIONS
@@ -107,7 +247,17 @@ C02_single_fetch
 C02_increasing
 C02_payload
 C02_no_gap_no_dup
+C02_decoded_reply_faithful
+C02_decoded_reply_faithful_wrapped
+C02_prompt
+C02_never_stuck_counterexample
+C02_never_stuck_sharp
+C02_never_stuck_partial
+C02_never_stuck_event
+C02_progress
+C02_progress_proc
 -/
 /- OPEN_STATEMENTS
-C02_prompt
+C02_never_stuck
+C02_progress_full
 -/
